@@ -17,6 +17,7 @@ mod ops_reader;
 mod ops_stream;
 mod ops_extract;
 mod ops_writer;
+mod ops_big;
 mod mkzip;
 
 pub use util::*;
@@ -49,6 +50,9 @@ fn dispatch(op: &str, args: &[Arg]) -> String {
         return r;
     }
     if let Some(r) = ops_writer::dispatch(op, args) {
+        return r;
+    }
+    if let Some(r) = ops_big::dispatch(op, args) {
         return r;
     }
     "BADOP".to_string()
